@@ -498,6 +498,32 @@ impl ServerWorker {
         });
     }
 
+    /// Handle a `Stop` message. Returns `true` if the worker is finished.
+    fn handle_stop(&mut self, Stop { graceful, tx }: Stop) -> bool {
+        let num = self.counter.total();
+        if num == 0 {
+            info!("shutting down idle worker");
+            let _ = tx.send(true);
+            true
+        } else if graceful {
+            info!("graceful worker shutdown; finishing {} connections", num);
+            self.shutdown(false);
+
+            self.state = WorkerState::Shutdown(Shutdown {
+                timer: Box::pin(sleep(Duration::from_secs(1))),
+                start_from: Instant::now(),
+                tx,
+            });
+            false
+        } else {
+            info!("force shutdown worker, closing {} connections", num);
+            self.shutdown(true);
+
+            let _ = tx.send(false);
+            true
+        }
+    }
+
     fn shutdown(&mut self, force: bool) {
         self.services
             .iter_mut()
@@ -598,26 +624,8 @@ impl Future for ServerWorker {
         let this = self.as_mut().get_mut();
 
         // `StopWorker` message handler
-        if let Poll::Ready(Some(Stop { graceful, tx })) = this.stop_rx.poll_recv(cx) {
-            let num = this.counter.total();
-            if num == 0 {
-                info!("shutting down idle worker");
-                let _ = tx.send(true);
-                return Poll::Ready(());
-            } else if graceful {
-                info!("graceful worker shutdown; finishing {} connections", num);
-                this.shutdown(false);
-
-                this.state = WorkerState::Shutdown(Shutdown {
-                    timer: Box::pin(sleep(Duration::from_secs(1))),
-                    start_from: Instant::now(),
-                    tx,
-                });
-            } else {
-                info!("force shutdown worker, closing {} connections", num);
-                this.shutdown(true);
-
-                let _ = tx.send(false);
+        if let Poll::Ready(Some(stop)) = this.stop_rx.poll_recv(cx) {
+            if this.handle_stop(stop) {
                 return Poll::Ready(());
             }
         }
@@ -721,7 +729,24 @@ impl Future for ServerWorker {
                             .call((guard, msg.io))
                             .into_inner();
                     }
-                    None => return Poll::Ready(()),
+                    None => {
+                        // The accept thread is gone (it drops its handles when it stops). That is
+                        // not by itself a command to stop: connections in progress must not be
+                        // torn down before this worker has received its `Stop` message, which may
+                        // still be on its way.
+                        return match this.stop_rx.poll_recv(cx) {
+                            Poll::Ready(Some(stop)) => {
+                                if this.handle_stop(stop) {
+                                    Poll::Ready(())
+                                } else {
+                                    self.poll(cx)
+                                }
+                            }
+                            // the server is gone as well
+                            Poll::Ready(None) => Poll::Ready(()),
+                            Poll::Pending => Poll::Pending,
+                        };
+                    }
                 };
             },
         }
